@@ -192,9 +192,20 @@ def count_sites(body: list, counters=None) -> list[CountSite]:
                         for a, b in zip(t.a[0], st.a[1].a[0]):
                             if a.k == "name":
                                 binds[a.a[0]] = b
-            if st.k == "aug" and st.a[0] == "+" and st.a[1].k == "name" and \
-                    (counters is None or st.a[1].a[0] in counters):
-                cs = CountSite(st.a[1].a[0], pp(st.a[2]), st.line, loops=list(loops),
+            inc = None                      # (counter name, amount X)
+            if st.k == "aug" and st.a[0] == "+" and st.a[1].k == "name":
+                inc = (st.a[1].a[0], st.a[2])
+            elif st.k == "assign" and len(st.a[0]) == 1 and st.a[0][0].k == "name" and \
+                    st.a[1].k == "bin" and st.a[1].a[0] == "+":
+                # the spelled-out increment  c = c + amount  /  c = amount + c
+                c_ = st.a[0][0].a[0]
+                l_, r_ = st.a[1].a[1], st.a[1].a[2]
+                if l_.k == "name" and l_.a[0] == c_:
+                    inc = (c_, r_)
+                elif r_.k == "name" and r_.a[0] == c_:
+                    inc = (c_, l_)
+            if inc is not None and (counters is None or inc[0] in counters):
+                cs = CountSite(inc[0], pp(inc[1]), st.line, loops=list(loops),
                                bindings=dict(binds))
                 for c in conds:
                     t = _adj_test(c)
